@@ -67,6 +67,7 @@ HAND = [
     ("sa", ["SAN "]), ("yi", ["JII "]), ("la", ["LAT "]), ("eo", ["NTO "]), ("nb", ["NOR "]), ("nn", ["NYN "]),
     ("no", ["NOR "]), ("za", ["ZHA "]), ("zzj", ["ZHA "]), ("zyj", ["ZHA "]), ("aa", ["AFR "]),
     # region / script / variant subtags
+    ("es-419", ["ESP "]), ("ar-001", ["ARA "]), ("en-150", ["ENG "]), ("en-001-x-foo", ["ENG "]), ("es-Latn-419", ["ESP "]),
     ("en-US", ["ENG "]), ("en-GB", ["ENG "]), ("de-CH-1996", ["DEU "]), ("fr-CA", ["FRA "]), ("pt-BR", ["PTG "]),
     ("sr-Cyrl", ["SRB "]), ("sr-Latn-RS", ["SRB "]), ("zh-Hans", ["ZHS "]), ("zh-CN", ["ZHS "]), ("zh-Hans-CN", ["ZHS "]),
     ("zh-Hant", ["ZHT "]), ("zh-TW", ["ZHT "]), ("zh-Hant-TW", ["ZHT "]), ("zh-HK", ["ZHH "]), ("zh-Hant-HK", ["ZHH "]),
@@ -139,7 +140,7 @@ def random_strings(rng, n, registry_langs):
     out = []
     alpha = "abcdefghijklmnopqrstuvwxyz"
     pool_sub = ["x", "hbot", "hbsc", "hbotabcd", "hbscdeva", "hant", "hans", "hk", "mo", "tw", "latn", "cyrl", "us", "fonipa",
-                "polyton", "a", "b", "i", "1996", "", "é", "日本", "zh", "cmn", "yue", "und", "art", "lojban", "min", "nan"]
+                "polyton", "a", "b", "i", "1996", "", "é", "日本", "zh", "cmn", "yue", "und", "art", "lojban", "min", "nan", "419", "001", "0a1", "ab1"]
     for k in range(n):
         m = rng.randrange(8)
         if m == 0:     # arbitrary bytes of a small alphabet
@@ -181,7 +182,7 @@ def language_inputs(chk, rows, prelude, arms, thorough):
             langs.append(l)
     inp = [(None, l, "registry") for l in langs]
     inp += [(None, l.upper(), "registry-upper") for l in langs[::3 if not thorough else 1]]
-    inp += [(None, l + "-" + rng.choice(["us", "latn", "x-foo", "zz-1996", "Hant", "a-bcd"]), "registry-subtag") for l in langs[::4 if not thorough else 1]]
+    inp += [(None, l + "-" + rng.choice(["us", "latn", "x-foo", "zz-1996", "Hant", "a-bcd", "419", "001", "150-x-a", "4a9", "a19", "19", "1996"]), "registry-subtag") for l in langs[::4 if not thorough else 1]]
     inp += [("Beng", l, "hand") for l, _ in HAND] + [("Beng", l, "hand-script") for l, _ in HAND_SCRIPT]
     inp += [(None, s, "rule") for s in rule_strings(prelude, arms)]
     inp += [(rng.choice([None, "Deva", "Latn", "Mymr"]), s, "random") for s in random_strings(rng, 6000 if thorough else 1500, langs)]
